@@ -39,6 +39,9 @@ def inputs():
         "own-json": render.render({**base, "reports": [own_json]}).encode(),
         "own-csv": render.render({**base, "reports": [own_csv]}).encode(),
         "own-both": render.render({**base, "reports": [own_json, own_csv]}).encode(),
+        # own reports in formats the CLI does not print: they must not disturb the id/start/end report on stdout
+        **{f"own-{fmt}": render.render({**base, "reports": [f'taskreport other "other" {{\n  formats {fmt}\n  columns id, start, end\n}}']}).encode()
+           for fmt in ("tjp", "html", "ical", "niku")},
         "nested-reports": render.render({**cont, "reports": [nested, own_json]}).encode(),
         "unschedulable": render.render(unsched).encode(),
         "crlf": render.render(base).replace("\n", "\r\n").encode(),
